@@ -4,6 +4,8 @@
 #include "hv.h"
 
 #include <sstream>
+#include <thread>
+#include <hgraph/runtime/push_source_node.h>
 
 namespace hv {
 
@@ -175,6 +177,9 @@ struct NodeCfg {
     std::int64_t stop_at_ord{-1};
     std::int64_t sleep_us{0};
     std::int64_t mirror_in{-1};
+    bool collect{false};          // real-time collecting sink: counts delivered values, stamps the global sequence
+    bool has_latch{false};
+    std::int64_t latch_val{0};
 };
 
 bool in_list(const JV *lst, std::int64_t x) { if (!lst || !lst->is_arr()) return false; for (auto &e : lst->a) if (e.as_int() == x) return true; return false; }
@@ -226,6 +231,23 @@ WiringPortRef wire_src(Scope &sc, const JV &st) {
 }
 
 // =================================================================================================================
+WiringPortRef wire_push_src(Scope &sc, const JV &st) {
+    struct DefPush {};
+    const std::string id = st.at("id").as_str();
+    const auto *schema = parse_ts(st.at("schema").as_str());
+    const std::string policy = st.str_or("policy", "queue");
+    const std::size_t cap = (std::size_t)st.int_or("capacity", 0);
+    PushSourcePolicy pol = policy == "burst" ? make_push_source_burst_policy(*schema, cap)
+                           : policy == "conflating" ? make_push_source_conflating_policy(*schema)
+                                                    : make_push_source_queue_policy(*schema, cap);
+    NodeBuilder nb = make_push_source_node(*schema, pol, [id](PushSourceSender s) {
+        if (g_ctx) { g_ctx->senders[id] = std::make_shared<PushSourceSender>(std::move(s)); g_ctx->senders_ready.fetch_add(1); }
+    });
+    nb.label(sc.prefix + id);
+    return sc.w->add_unique_node(std::type_index(typeid(DefPush)), std::move(nb), std::span<const WiringPortRef>{}, Value{});
+}
+
+// =================================================================================================================
 WiringPortRef wire_node(Scope &sc, const JV &st, std::vector<WiringPortRef> ins) {
     auto cfg = std::make_shared<NodeCfg>();
     const std::string id = st.at("id").as_str();
@@ -244,6 +266,8 @@ WiringPortRef wire_node(Scope &sc, const JV &st, std::vector<WiringPortRef> ins)
     cfg->stop_at_ord = st.int_or("stop_at_ord", -1);
     cfg->sleep_us = st.int_or("sleep_us", 0);
     cfg->mirror_in = st.int_or("mirror", -1);
+    cfg->collect = st.bool_or("collect", false);
+    if (st.has("latch_on")) { cfg->has_latch = true; cfg->latch_val = st.at("latch_on").as_int(); }
 
     auto &reg = TypeRegistry::instance();
     NodeTypeMetaData m;
@@ -334,6 +358,12 @@ WiringPortRef wire_node(Scope &sc, const JV &st, std::vector<WiringPortRef> ins)
             extra("sq"); e += '[' + lg + ']';
         }
         if (v.schema()->uses_evaluation_clock) { extra("now"); e += jtime(v.evaluation_clock().now()); }
+        if (cfg->collect && g_ctx) {
+            std::int64_t n = 1;
+            if (cfg->n_in > 0) { auto in = v.input(t); auto b = in.as_bundle(); auto c = b[0]; if (c.valid() && c.value().is_list()) n = (std::int64_t)c.value().as_list().size(); }
+            extra("seq"); e += std::to_string(g_ctx->seq.fetch_add(1) + 1);
+            g_ctx->delivered.fetch_add(n);
+        }
         bool thrown = false;
         if (cfg->thr.is_obj()) {
             if (in_list(cfg->thr.get("ord"), ord) || in_list(cfg->thr.get("time"), rel(t))) thrown = true;
@@ -361,6 +391,10 @@ WiringPortRef wire_node(Scope &sc, const JV &st, std::vector<WiringPortRef> ins)
         }
         e += "}]";
         if (g_ctx) g_ctx->add(std::move(e));
+        if (cfg->has_latch && g_ctx && first_val == cfg->latch_val && !g_ctx->release_latch.load()) {
+            g_ctx->latched.store(true);
+            while (!g_ctx->release_latch.load()) { std::this_thread::yield(); }
+        }
         if (cfg->sleep_us > 0) { auto until = std::chrono::steady_clock::now() + std::chrono::microseconds(cfg->sleep_us); while (std::chrono::steady_clock::now() < until) {} }
         if (cfg->stop_at_ord >= 0 && ord == cfg->stop_at_ord) v.graph().executor().request_stop();
     };
